@@ -136,13 +136,14 @@ Step(sem, st, op) ==
             LET lt == IF sem = "G1" THEN GReadPath(st, op.p, TRUE) ELSE [st |-> st, status |-> "ok"]
                 st1 == IF sem = "G1" /\ lt.status = "ok" THEN Despec(st, lt.st) ELSE st
                 rd == RdP(sem, st1, op.r.p)
+                target == IF sem = "G1" THEN GResolvePath(st1, op.p) ELSE op.p
             IN
             IF lt.status = "error" THEN R3(st, Missing, "error")
             ELSE IF rd.status # "ok" THEN rd
             ELSE IF sem # "I" /\ rd.st.taint > st1.taint THEN R3(st, Missing, "wild")   \* both sides evaluated before the store
             ELSE IF rd.res.t = "fresh" THEN R3(st, Missing, "wild")     \* the right side is the cell the left side just padded
             ELSE IF rd.res.t = "unset" THEN R3(st, Missing, "open")
-            ELSE AsP(sem, rd.st, op.p, GCopy(rd.res))
+            ELSE AsP(sem, rd.st, target, GCopy(rd.res))
          ELSE LET m == MkLit(sem, st, op.r) IN AsP(sem, m.st, op.p, m.val)
     [] op.kind \in UpdKinds ->
          LET rd == RdQ(sem, st, op.p) IN
